@@ -127,8 +127,9 @@ def check_corpus(only=None):
             now.update(part)
     probs = []
     for pkg in sorted(pinned):
-        if now.get(pkg) != pinned[pkg]:
-            ents = [e for e in pinned[pkg] if now.get(pkg, {}).get(e) != pinned[pkg][e]]
+        # only signatures are pinned: an entry that was refused when the corpus was pinned demands nothing
+        ents = [e for e in pinned[pkg] if "__status__" not in pinned[pkg][e] and now.get(pkg, {}).get(e) != pinned[pkg][e]]
+        if ents:
             e = ents[0]
             a, b = pinned[pkg][e], now.get(pkg, {}).get(e)
             paths = sorted(p for p in set(a) | set(b or {}) if a.get(p) != (b or {}).get(p))
